@@ -42,8 +42,14 @@ def c10_a(ctx: Ctx):
     """Every document collection is constructed with write_concern=True (constant)."""
     R = "C10-a"
     out = []
-    for q in DOC_SITES:
-        fi = ctx.fn(q)
+    sites = [ctx.fn(q) for q in DOC_SITES]
+    for f in ctx.prog.funcs.values():
+        if f.module.is_dep or f in sites or f.module.name == "signac.__main__":
+            continue
+        if doc_ctor_calls(ctx, f):
+            sites.append(f)  # a new place that opens a document file
+    for fi in sites:
+        q = fi.qual
         calls = doc_ctor_calls(ctx, fi)
         if not calls:
             out.append(ctx.inc(R, fi, fi.node, "no document collection constructor found"))
@@ -234,4 +240,14 @@ def c10_d(ctx: Ctx):
     return out
 
 
-RULES = [c10_a, c10_b, c10_c, c10_d]
+@rule("C10-e")
+def c10_e(ctx: Ctx):
+    """Whole-document assignment is a single write (same obligation as C05-c)."""
+    from .c05 import c05_c
+    res = [r for r in c05_c(ctx) if "setter" in r.function]
+    for r in res:
+        r.rule = "C10-e"
+    return res
+
+
+RULES = [c10_a, c10_b, c10_c, c10_d, c10_e]
